@@ -2,6 +2,7 @@
 the real code is driven through verification wrappers, its inputs/outputs
 are recorded as integers and TLC evaluates the defining relations on them."""
 import json
+import os
 import random
 import shutil
 
@@ -9,13 +10,39 @@ import vlib
 from vlib import Verdict
 
 
-def _judge(v, prop, monitor, cfg, jobs, cmd, wd, keyfn):
-    out = vlib.run_pt(cmd, jobs, wd, name=prop, timeout=7200)
-    res = vlib.tlc_trace(monitor, cfg, out, wd, depth_first=False, timeout=3600)
+def _judge(v, prop, monitor, cfg, jobs, cmd, wd, keyfn, weight=None, budget=200000):
+    """Run the jobs and hand the records to the TLC monitor, in chunks of bounded weight (TLC loads a whole
+    trace file into memory), four TLC processes at a time."""
+    from concurrent.futures import ThreadPoolExecutor
+    chunks, cur, w = [], [], 0
+    for j in jobs:
+        wj = weight(j) if weight else 1
+        if cur and w + wj > budget:
+            chunks.append(cur)
+            cur, w = [], 0
+        cur.append(j)
+        w += wj
+    if cur:
+        chunks.append(cur)
+
+    def one(ci):
+        out = vlib.run_pt(cmd, chunks[ci], wd, name=f"{prop}.{ci}", timeout=7200, threads=8)
+        r = vlib.tlc_trace(monitor, cfg, out, wd, depth_first=False, timeout=3600, name=f"{monitor}.{ci}")
+        os.remove(out)
+        return r
+
+    with ThreadPoolExecutor(4) as ex:
+        results = list(ex.map(one, range(len(chunks))))
     jb = {j["id"]: j for j in jobs}
-    for x in res.get("viol", []):
-        v.violation(f"{prop}: {keyfn(x)}", {"kind": f"{cmd}-job", "job": jb[x["run"]]}, f"run {x['run']}: {x['what']}")
-    return res
+    total = {}
+    for res in results:
+        for x in res.get("viol", []):
+            v.violation(f"{prop}: {keyfn(x)}", {"kind": f"{cmd}-job", "job": jb[x["run"]]}, f"run {x['run']}: {x['what']}")
+        for k, val in res.items():
+            if isinstance(val, int):
+                total[k] = total.get(k, 0) + val
+    total["tlc_runs"] = len(chunks)
+    return total
 
 
 def check_C10(tier, replay):
@@ -48,7 +75,8 @@ def check_C10(tier, replay):
         for n in (2, 3) if q else (2, 3, 4, 5):
             for l, la in ((1, 0), (8, 4), (129, 64)) if q else ((1, 0), (2, 1), (8, 4), (129, 64), (1001, 500)):
                 jobs.append({"kind": "Dealer", "id": f"dealer.n{n}.l{l}", "n": n, "l_rand": l, "l_and": la, "seed": 1})
-    res = _judge(v, "C10", "Mon_C10", vlib.MON_CFG, jobs, "pre", wd, lambda x: x["what"].split(":")[0])
+    res = _judge(v, "C10", "Mon_C10", vlib.MON_CFG, jobs, "pre", wd, lambda x: x["what"].split(":")[0],
+                 weight=lambda j: j["n"] * j["n"] * (min(j["l_rand"], j.get("sample") or j["l_rand"]) + 3 * j["l_and"]), budget=120000)
     v.coverage = {
         "states": max(res["checked"], 1), "transitions": max(res["checked"], 1),
         "traces_validated_against_impl": res["checked"],
@@ -84,7 +112,8 @@ def check_C11(tier, replay):
             for ch in (["random"] if (not q and m > 300 and m % 8 not in (0, 1, 7)) else ["zero", "one", "random"]):
                 jobs.append({"kind": "Ot", "id": f"ot.m{m}.{ch}", "m": m, "choices": ch, "seed": rng.randrange(1 << 30),
                              "both": (m % 2 == 0) or m < 20 or ch == "random"})
-    res = _judge(v, "C11", "Mon_C11", vlib.SPEC + "/MonReal.cfg", jobs, "pre", wd, lambda x: x["what"].split(":")[0])
+    res = _judge(v, "C11", "Mon_C11", vlib.SPEC + "/MonReal.cfg", jobs, "pre", wd, lambda x: x["what"].split(":")[0],
+                 weight=lambda j: j["m"] * (2 if j["both"] else 1), budget=150000)
     v.coverage = {
         "states": max(res["checked"], 1), "transitions": max(res["checked"], 1),
         "traces_validated_against_impl": res["checked"],
@@ -141,7 +170,8 @@ def check_C20(tier, replay):
             jobs.append({"kind": "Hash", "id": f"h{i}", "seed": rng.randrange(1 << 30) * 7 + (0 if i % 5 == 0 else 1)})
         for n in (list(range(0, 70)) + [127, 128, 129, 255, 256, 257, 1023, 1024, 1099, 1100] if q else range(0, 1101)):
             jobs.append({"kind": "Rng", "id": f"g{n}", "seed": rng.randrange(1 << 30), "lens": [n]})
-    res = _judge(v, "C20", "Mon_C20", vlib.MON_CFG, jobs, "prims", wd, lambda x: x["what"])
+    res = _judge(v, "C20", "Mon_C20", vlib.MON_CFG, jobs, "prims", wd, lambda x: x["what"],
+                 weight=lambda j: {"Transpose": 40, "Clmul": 4, "Hash": 1, "Rng": 2}[j["kind"]], budget=4000)
     kinds = {}
     for j in jobs:
         kinds[j["kind"]] = kinds.get(j["kind"], 0) + 1
